@@ -432,3 +432,41 @@ func verifBE(out []byte, at, w int) int64 {
 	}
 	return v
 }
+
+// VerifStreamLengthAfterEncode (C18: "every stream's /Length equals its byte count"): a stream
+// dictionary that was read with some /Length (symbolic, stale) and whose content was replaced since
+// (symbolic bytes, e.g. a stamp appended to a page's content stream) is encoded without a filter and
+// written; the /Length in the bytes written must be the number of bytes between "stream" EOL and EOL
+// "endstream", and those bytes must be the new content.
+func VerifStreamLengthAfterEncode() {
+	eol := verifEol()
+	ctx, buf := verifWriteCtx(eol, 0)
+	stale := vp.IntIn(0, 99)
+	content := vp.Bytes(vp.IntRange(0, vp.Bound("S")))
+	sl := int64(stale)
+	sd := types.StreamDict{Dict: types.Dict{"Length": types.Integer(stale)}, StreamLength: &sl}
+	sd.Content = append([]byte{}, content...)
+	if err := sd.Encode(); err != nil {
+		return
+	}
+	if err := writeStreamDictObject(ctx, 7, 0, sd); err != nil {
+		return
+	}
+	if err := ctx.Write.Flush(); err != nil {
+		return
+	}
+	out := buf.Bytes()
+	hdr := objectHeader(7, 0, eol)
+	vp.Assert(verifHasPrefixAt(out, 0, hdr), "object header missing")
+	// the dictionary is "<</Length N>>": read N with the strict integer reader
+	pre := "<</Length "
+	vp.Assert(verifHasPrefixAt(out, len(hdr), pre), "stream dictionary does not start with /Length")
+	n, p, ok := verifUint(out, len(hdr)+len(pre), 10)
+	vp.Assert(ok && verifHasPrefixAt(out, p, ">>"+eol+"stream"+eol), "stream keyword does not follow the dictionary")
+	ds := p + 2 + len(eol) + 6 + len(eol)
+	vp.Assert(int(n) == len(content), "/Length is not the length of the stream's current content")
+	vp.Assert(ds+int(n) <= len(out) && verifHasPrefixAt(out, ds+int(n), eol+"endstream"+eol+"endobj"+eol), "/Length is not the number of bytes before endstream")
+	for i := range content {
+		vp.Assert(ds+i < len(out) && out[ds+i] == content[i], "the stream bytes written are not the current content")
+	}
+}
